@@ -344,6 +344,12 @@ def execGetAndUpdate (key val src : Val) : Res (Val × Val) :=
     (mapUpdate k v items key (some y)).bind fun r => .ok ((match r.1 with | some p => Val.some p | none => Val.none v), r.2)
   | _, _ => .err
 
+/-- `execute_hash` after `pop1`: `assert_type_equal(BytesType)`, `BytesType.from_value(hash_digest(bytes(a)))` -/
+def execHash (h : List Nat → List Nat) (a : Val) : Res Val :=
+  match a with
+  | .bytes b => .ok (.bytes (h b))
+  | _ => .err
+
 def strVals : List Val → Option (List (List Nat))
   | [] => some []
   | .str s :: rest => (strVals rest).map (s :: ·)
@@ -353,6 +359,20 @@ def bytesVals : List Val → Option (List (List Nat))
   | [] => some []
   | .bytes s :: rest => (bytesVals rest).map (s :: ·)
   | _ => none
+
+/-- further instructions without sub-programs (kept apart from `step` so that either pattern match stays small) -/
+def stepMore (env : Env) (i : Instr) (s : Stack) : Res Stack :=
+  match i with
+  | .TOTAL_VOTING_POWER => do let r ← numFromValue .nat env.totalVotingPower; pure (s.push r)
+  | .MIN_BLOCK_TIME => do let r ← numFromValue .nat env.minBlockTime; pure (s.push r)
+  | .BLAKE2B => do let (a, s) ← s.pop1; let r ← execHash env.hashes.blake2b a; pure (s.push r)
+  | .SHA256 => do let (a, s) ← s.pop1; let r ← execHash env.hashes.sha256 a; pure (s.push r)
+  | .SHA512 => do let (a, s) ← s.pop1; let r ← execHash env.hashes.sha512 a; pure (s.push r)
+  | .KECCAK => do let (a, s) ← s.pop1; let r ← execHash env.hashes.keccak a; pure (s.push r)
+  | .SHA3 => do let (a, s) ← s.pop1; let r ← execHash env.hashes.sha3 a; pure (s.push r)
+  | .CAST _ => do let (a, s) ← s.pop1; pure (s.push a)      -- the cast itself is commented out in the source
+  | .RENAME => pure s
+  | _ => .err
 
 /-- instructions that touch only the top of the stack -/
 def step (env : Env) (i : Instr) (s : Stack) : Res Stack :=
@@ -585,7 +605,7 @@ def step (env : Env) (i : Instr) (s : Stack) : Res Stack :=
   | .NOW => pure (s.push (.num .timestamp env.now))
   | .LEVEL => do let r ← numFromValue .nat env.level; pure (s.push r)
   | .CHAIN_ID => pure (s.push (.atom .chainId env.chainId))
-  | _ => .err
+  | i => stepMore env i s
 
 mutual
   /-- `cls.execute(stack, stdout, context)`; `fuel` bounds loop iterations and nesting -/
